@@ -36,7 +36,6 @@ func Match(pat, name string) (bool, error)    { return filepath.Match(pat, name)
 func FromSlash(p string) string               { return filepath.FromSlash(p) }
 func ToSlash(p string) string                 { return filepath.ToSlash(p) }
 func EvalSymlinks(p string) (string, error)   { return filepath.EvalSymlinks(p) }
-func Glob(pattern string) ([]string, error)   { return filepath.Glob(pattern) }
 func WalkDir(root string, fn fs.WalkDirFunc) error { return filepath.WalkDir(root, fn) }
 
 func Abs(p string) (string, error) {
@@ -55,4 +54,31 @@ func Walk(root string, fn WalkFunc) error {
 		return filepath.Walk(root, fn)
 	}
 	return simos.WalkTree(root, func(p string, fi simos.FileInfo, err error) error { return fn(p, fi, err) })
+}
+
+// Glob inside a simulation supports what file.d uses: meta characters in the
+// last path element only; the directory part is read from the simulated disk.
+func Glob(pattern string) ([]string, error) {
+	if simos.Cur() == nil {
+		return filepath.Glob(pattern)
+	}
+	dir, file := filepath.Split(pattern)
+	if _, err := filepath.Match(file, ""); err != nil {
+		return nil, err
+	}
+	cleanDir := filepath.Clean(dir)
+	if dir == "" {
+		cleanDir = "."
+	}
+	ents, err := simos.ReadDir(cleanDir)
+	if err != nil {
+		return nil, nil // like the real Glob: I/O errors are ignored
+	}
+	var out []string
+	for _, e := range ents {
+		if ok, _ := filepath.Match(file, e.Name()); ok {
+			out = append(out, filepath.Join(cleanDir, e.Name()))
+		}
+	}
+	return out, nil
 }
